@@ -35,6 +35,10 @@ def run(ctx):
     # e.g. a chronyd that has been unreachable for a while) when this one dies
     for site, action, mode in (("writer.recv", "panic", "absent"), ("writer.done", "return", "absent"), ("poller.recv", "panic", "absent"), ("writer.recv", "return", "answer")):
         plans.append({"binary": "hooked", "site": site, "hit": 7 if q else 9, "action": action, "chronyd": mode, "fire_within_s": 200})
+    # a history first: chronyd synchronised, then unreachable well beyond the grace period (the writer has
+    # been publishing the same Unknown record for a while), and only then a worker dies
+    for site, action in (("poller.loop", "panic"), ("poller.recv", "return"), ("writer.recv", "panic"), ("writer.done", "return")):
+        plans.append({"binary": "hooked", "site": site, "hit": 14 if site.startswith("poller") else 14, "action": action, "chronyd": "answer", "chronyd_script": [[2.6, "absent"]], "fire_within_s": 60})
     # natural faults, release binary as shipped
     plans.append({"binary": "release", "natural": "shm-is-directory", "chronyd": "absent", "fire_within_s": 10})
     plans.append({"binary": "release", "natural": "shm-is-directory", "chronyd": "answer", "fire_within_s": 10})
@@ -64,7 +68,7 @@ def run(ctx):
             continue
         ob = json.load(open(o))[0]
         name = ob.get("site") or ob.get("natural")
-        key = "%s|%s|hit%s|chronyd-%s" % (name, ob.get("action", "natural"), ob.get("hit", "-"), ob["chronyd"])
+        key = "%s|%s|hit%s|chronyd-%s%s" % (name, ob.get("action", "natural"), ob.get("hit", "-"), ob["chronyd"], "-then-absent" if ob.get("chronyd_script") else "")
         if not ob["fired"]:
             not_fired += 1
             table[key] = "fault never fired"
@@ -89,7 +93,7 @@ def run(ctx):
         "evaluations": len(plans),
         "distinct_nontrivial": len([v for v in table.values() if v != "fault never fired"]),
         "rule": "fault enumeration: the hooked `clockbound` binary runs in its own mount namespace with CLOCKBOUND_VERIF_FAILPOINT=<site>:<hit>:<action> for every failpoint (5 in the poller loop and start-up, 4 in the writer loop and start-up) x {panic, return} x hit in %s x chronyd in %s (a stand-in speaking the chrony protocol on /run/chrony/chronyd.sock); "
-                "plus natural faults on the release binary as shipped: the segment path is a directory, the PHC error-bound file is unparsable at start / turns to garbage after 2.5 s (6.5 s) while it is chronyd's reference; "
+                "plus late failures (iteration 7/9) and failures at iteration 14 after chronyd answered for 2.6 s and then vanished; plus natural faults on the release binary as shipped: the segment path is a directory, the PHC error-bound file is unparsable at start / turns to garbage after 2.5 s (6.5 s) while it is chronyd's reference; "
                 "latency = process exit time - time the fault fired (both CLOCK_MONOTONIC); violation if the process is alive %d ms after the fault (40 s watchdog then kills it); distinct_nontrivial = plans whose fault actually fired" % (hits, modes, DEADLINE_MS),
         "samples": samples,
         "latency_ms": {"min": lat[0] if lat else None, "p50": lat[len(lat) // 2] if lat else None, "max": lat[-1] if lat else None},
